@@ -183,7 +183,12 @@ where
     let mut b = conf_builder(base, c);
     match how {
         How::CompGraph => b.comp_graph::<E>(&vg),
-        How::CompLender => b.comp_lender::<E, _>(vg.iter(), Some(g.len())),
+        How::CompLender => {
+            // the expected number of nodes is only a hint (see lab.rs)
+            let n = g.len();
+            let hint = match (n + num_arcs(g)) % 4 { 0 => None, 1 => Some(n), 2 => Some(n + 3), _ => Some(n.saturating_sub(2)) };
+            b.comp_lender::<E, _>(vg.iter(), hint)
+        }
         How::Par { cuts, threads, order } => {
             let pg = ParGraph::with_cutpoints(vg, cuts.clone());
             let pool = rayon::ThreadPoolBuilder::new().num_threads(*threads).build()?;
